@@ -236,7 +236,7 @@ impl StringDecoder for Unreal2StringDecoder {
 
             // When node decodes UCS2 it uses the UFT16LE encoding.
             // https://github.com/nodejs/node/blob/2aaa21f9f684484edb54be30589c4af0b923cdef/lib/buffer.js#L637-L645
-            let (result, _, invalid_sequences) = UTF_16LE.decode(string_data);
+            let (result, invalid_sequences) = UTF_16LE.decode_without_bom_handling(string_data);
 
             if invalid_sequences {
                 return Err(PacketBad.context("UTF-8 string contained invalid character(s)"));
@@ -262,7 +262,7 @@ impl StringDecoder for Unreal2StringDecoder {
                 .unwrap_or(string_data.len());
 
             // Decode as latin1
-            let (result, _, invalid_sequences) = WINDOWS_1252.decode(&string_data[.. position]);
+            let (result, invalid_sequences) = WINDOWS_1252.decode_without_bom_handling(&string_data[.. position]);
 
             if invalid_sequences {
                 return Err(PacketBad.context("latin1 string contained invalid character(s)"));
